@@ -225,6 +225,12 @@ def execute(plan, ctx):
                     k2 = e["ev"] + ":" + rk
                     cov["events_by_kind"][k2] = cov["events_by_kind"].get(k2, 0) + 1
                 key = nontrivial(e) if nontrivial else ((e["ev"], e.get("tag"), n) if e["ev"] == "Verdicts" else None)
+                ci = plan.get("count_items")
+                if ci and e["ev"] == ci[0]:
+                    for it in e.get("res", {}).get(ci[1], []):
+                        keys.add((e.get("tag"), json.dumps(it.get("q"))))
+                        if len(cov["samples"]) < 3:
+                            cov["samples"].append({"ev": e["ev"], "tag": e.get("tag"), "item": it})
                 if key is not None:
                     if key not in keys and len(cov["samples"]) < 3:
                         s = {k: e[k] for k in ("ev", "tag", "args", "res") if k in e}
@@ -280,6 +286,33 @@ PLANS = {
                 nontrivial=lambda e: (("hist", e.get("tag")) if e["ev"] == "Reset" and str(e.get("tag", "")).startswith("caches")
                                       else ((e["ev"], json.dumps(e.get("args"), sort_keys=True), e.get("tag"))
                                             if e["ev"] == "Insert" and e.get("res", {}).get("err") in ("DuplicateCoordinates", "DuplicateUuid") else None))),
+    "C10": dict(level="model_checking", families=[("queries", 14, 16)],
+                rule="for each corpus triangulation (constructed, then after insertions / a removal / flips+repair) every "
+                     "lattice point of the bounding box extended by one unit (sampled above a cap) is located under every "
+                     "hint: none, live cells, a stale key, a foreign key; both locate and locate_with_stats. distinct "
+                     "non-trivial = distinct (history, query point) pairs",
+                nontrivial=lambda e: None, count_items=("Locate", "qs")),
+    "C11": dict(level="model_checking", families=[("queries", 14, 16)],
+                stages=[lambda c, v: stage_mc("MC_Caches.tla", ("MC_Caches_fixed.cfg" if c.tier == "thorough" else "MC_Caches_fixed_quick.cfg"))(c, v),
+                        stage_caches],
+                rule="(i) HullFresh checked exhaustively on the cache/generation model; (ii) TLC-generated histories with "
+                     "HullCreate/HullQuery replayed and compared with the model; (iii) hull creation on corpus "
+                     "triangulations checked against Boundary(K) and exact visibility for every query point, then one "
+                     "mutating call of each kind (failed insert, failed flip, mutation of a clone, successful insert / "
+                     "remove / flip / repair / policy change) followed by queries. distinct non-trivial = distinct "
+                     "(history, hull query point) pairs",
+                nontrivial=lambda e: None, count_items=("HullQuery", "qs")),
+    "C13": dict(level="model_checking", families=[("serde", 14, 16)],
+                rule="serde_json round trip of the Tds of constructed / churned triangulations (vertex and cell data, key "
+                     "gaps after removals, after flips), equality of the projection, then the same insertions and removal "
+                     "on original and copy for general-position points with Compare events. distinct non-trivial = "
+                     "distinct successful SerDe events",
+                nontrivial=_key_event({"SerDe"})),
+    "C15": dict(level="model_checking", families=[("queries", 14, 16)],
+                rule="every topology / adjacency query (indexed and not) on corpus triangulations in each reachable state "
+                     "class, compared by TLC with face enumeration of the logged cells; missing vertex and cell keys. "
+                     "distinct non-trivial = distinct Queries events",
+                nontrivial=_key_any({"Queries"})),
     "C03": dict(level="fault_enumeration", families=[("remove", 8, 16), ("insert", 8, 16), ("flips", 8, 16), ("repair", 8, 16)],
                 rule="every mutating call that returned Err or Skipped in the insert/remove/flip/repair histories "
                      "(natural failures: duplicates, reused uuids, degenerate points, non-flippable / boundary / "
